@@ -5,9 +5,12 @@ package main
 
 import (
 	"encoding/json"
+	"fmt"
+	"go/ast"
 	"go/constant"
 	"go/token"
 	"go/types"
+	"os"
 	"strings"
 
 	"golang.org/x/tools/go/ssa"
@@ -1487,6 +1490,8 @@ func ruleRawTable(c *Ctx, r *Rep) {
 			return "ctBinary"
 		case strings.Contains(atom, "Kind(") && strings.Contains(atom, "\"Content\"") && strings.Contains(atom, "K(0)"):
 			return "ctKindInvalid:" + atom[:2]
+		case strings.Contains(atom, "IsValid(") && strings.Contains(atom, "\"Content\""):
+			return "ctKindInvalid:!=" // IsValid() is Kind() != Invalid
 		}
 		return ""
 	}
@@ -1524,6 +1529,11 @@ func ruleRawTable(c *Ctx, r *Rep) {
 		}
 		bad := ""
 		nFeasible := 0
+		if os.Getenv("GOPKICHECK_TRACE") != "" {
+			for _, p := range paths {
+				fmt.Fprintf(os.Stderr, "RAW-TABLE exit %d %s: %v\n", i+1, kind, p)
+			}
+		}
 		for _, p := range paths {
 			asg := map[string]bool{}
 			env := false
@@ -1786,6 +1796,356 @@ func ruleArrFill(c *Ctx, r *Rep) {
 					r.Check(k.Int64() == arr.Len(), sprintf("fill|%s#%d", c.FuncKey(fn), n), c.Pos(ia.Pos()), sprintf("the list has %d elements, as many as the array", arr.Len()), sprintf("%d", k.Int64()))
 				}
 			}
+		}
+	}
+}
+
+// ---------------------------------------------------------------------------
+
+func init() {
+	register(&Rule{Name: "LINT-DEADVALUE", Floor: 0, Run: ruleDeadValue, Fixture: "fixture.encodedAndDropped",
+		Doc: "no result of a call is bound to a variable and then never read (the statement that consumed it is missing): every extracted non-error result of a call has a use"})
+}
+
+func ruleDeadValue(c *Ctx, r *Rep) {
+	for _, fn := range c.Funcs {
+		n := 0
+		for _, b := range fn.Blocks {
+			for _, ins := range b.Instrs {
+				if al, isAl := ins.(*ssa.Alloc); isAl {
+					if filler, dead := filledNeverRead(al); dead {
+						n++
+						r.Bad(sprintf("filled|%s|%s", c.FuncKey(fn), al.Comment), c.Pos(filler.Pos()), "a variable filled through its address by "+calleeFullName(filler)+" is read afterwards", "never read")
+					}
+					continue
+				}
+				ex, ok := ins.(*ssa.Extract)
+				if !ok || isErrorType(ex.Type()) {
+					continue
+				}
+				call, ok := ex.Tuple.(*ssa.Call)
+				if !ok {
+					continue // comma-ok forms: the flag alone may be wanted
+				}
+				if bt, isB := ex.Type().Underlying().(*types.Basic); isB && bt.Kind() == types.Bool {
+					continue // a found-flag that is not needed
+				}
+				if lhsBlank(c, call, ex.Index) {
+					continue // written off with _ in the source
+				}
+				n++
+				used := hasUses(ex)
+				// a variable that lives in memory: the store counts only if the cell is read
+				if used {
+					onlyDeadStores := true
+					for _, ref := range *ex.Referrers() {
+						st, isSt := ref.(*ssa.Store)
+						if _, dbg := ref.(*ssa.DebugRef); dbg {
+							continue
+						}
+						if !isSt {
+							onlyDeadStores = false
+							break
+						}
+						al, isAl := st.Addr.(*ssa.Alloc)
+						if !isAl || al.Heap || cellRead(al) {
+							onlyDeadStores = false
+							break
+						}
+					}
+					used = !onlyDeadStores
+				}
+				r.Check(used, sprintf("result|%s#%d", c.FuncKey(fn), n), c.Pos(call.Pos()), sprintf("result %d of %s is read somewhere", ex.Index, calleeFullName(call)), "bound and never read")
+			}
+		}
+	}
+}
+
+// filledNeverRead: a named variable whose address is handed to calls (to be filled) and which is never read.
+func filledNeverRead(al *ssa.Alloc) (ssa.CallInstruction, bool) {
+	if al.Comment == "complit" || al.Comment == "new" || al.Comment == "" || strings.HasPrefix(al.Comment, "varargs") {
+		return nil, false
+	}
+	var filler ssa.CallInstruction
+	var visit func(v ssa.Value) bool // false: some use other than being handed to a call
+	visit = func(v ssa.Value) bool {
+		for _, ref := range *v.Referrers() {
+			switch x := ref.(type) {
+			case *ssa.DebugRef:
+			case *ssa.MakeInterface:
+				if !visit(x) {
+					return false
+				}
+			case ssa.CallInstruction:
+				name := calleeFullName(x)
+				if !(strings.HasSuffix(name, ".Unmarshal") || strings.HasSuffix(name, ".UnmarshalWithParams") || strings.HasSuffix(name, ".Decode")) {
+					return false // handed to something that may read it
+				}
+				filler = x
+			case *ssa.Store:
+				if x.Addr != v {
+					return false
+				}
+			default:
+				return false
+			}
+		}
+		return true
+	}
+	if !visit(al) || filler == nil {
+		return nil, false
+	}
+	return filler, true
+}
+
+// cellRead: a local cell is loaded from, or its address escapes.
+func cellRead(al *ssa.Alloc) bool {
+	for _, ref := range *al.Referrers() {
+		switch x := ref.(type) {
+		case *ssa.Store:
+			if x.Addr != ssa.Value(al) {
+				return true
+			}
+		case *ssa.DebugRef:
+		default:
+			return true
+		}
+	}
+	return false
+}
+
+// lhsBlank: in the source, result idx of the call is assigned to the blank identifier (or the call is not the
+// right-hand side of an assignment at all).
+func lhsBlank(c *Ctx, call *ssa.Call, idx int) bool {
+	_, file := c.FileOf(call.Pos())
+	if file == nil {
+		return true
+	}
+	blank, found := false, false
+	ast.Inspect(file, func(n ast.Node) bool {
+		if found {
+			return false
+		}
+		as, ok := n.(*ast.AssignStmt)
+		if !ok || len(as.Rhs) != 1 {
+			return true
+		}
+		ce, ok := as.Rhs[0].(*ast.CallExpr)
+		if !ok || ce.Lparen != call.Pos() {
+			return true
+		}
+		found = true
+		if idx < len(as.Lhs) {
+			if id, ok := as.Lhs[idx].(*ast.Ident); ok && id.Name == "_" {
+				blank = true
+			}
+		}
+		return false
+	})
+	return blank || !found
+}
+
+// ---------------------------------------------------------------------------
+
+func init() {
+	register(&Rule{Name: "LINT-CONSTSLICE", Floor: 0, Run: ruleConstSlice, Fixture: "fixture.sliceBeyondUnknownLength",
+		Doc: "a slice or string of run-time length is cut or indexed at a positive constant only behind a test that establishes that length (a comparison of its len, a prefix test with a constant at least that long, a match of a constant pattern)"})
+}
+
+// lenLowerBound: the largest n such that the guards on the way to b establish len(s) >= n.
+func lenLowerBound(c *Ctx, s ssa.Value, b *ssa.BasicBlock) int64 {
+	same := func(x ssa.Value) bool { return x == s || sameLoad(x, s) || sameFieldLoad(x, s) }
+	best := int64(0)
+	for _, g := range guardsOf(b) {
+		cond, truth := g.Cond, g.Truth
+		if u, ok := cond.(*ssa.UnOp); ok && u.Op == token.NOT {
+			cond, truth = u.X, !truth
+		}
+		switch x := cond.(type) {
+		case *ssa.BinOp:
+			of, isLen := lenOperand(x.X)
+			k, isK := x.Y.(*ssa.Const)
+			op := x.Op
+			if !isLen || !isK {
+				of, isLen = lenOperand(x.Y)
+				k, isK = x.X.(*ssa.Const)
+				op = map[token.Token]token.Token{token.LSS: token.GTR, token.GTR: token.LSS, token.LEQ: token.GEQ, token.GEQ: token.LEQ, token.EQL: token.EQL, token.NEQ: token.NEQ}[op]
+			}
+			if lx, okx := lenOperand(x.X); okx {
+				if _, oky := lenOperand(x.Y); oky && same(lx) && (x.Op == token.GTR) == truth && (x.Op == token.GTR || x.Op == token.LEQ) {
+					// len(s) > len(t): at least one
+					if best < 1 {
+						best = 1
+					}
+				}
+			}
+			if !isLen || !isK || k.Value == nil || !same(of) {
+				continue
+			}
+			if !truth {
+				op = map[token.Token]token.Token{token.LSS: token.GEQ, token.GEQ: token.LSS, token.GTR: token.LEQ, token.LEQ: token.GTR, token.EQL: token.NEQ, token.NEQ: token.EQL}[op]
+			}
+			var n int64
+			switch op {
+			case token.EQL, token.GEQ:
+				n = k.Int64()
+			case token.GTR:
+				n = k.Int64() + 1
+			case token.NEQ:
+				if k.Int64() == 0 {
+					n = 1
+				}
+			}
+			if n > best {
+				best = n
+			}
+		case *ssa.Call:
+			name := calleeFullName(x)
+			if truth && (name == "strings.HasPrefix" || name == "bytes.HasPrefix" || name == "strings.HasSuffix") && len(x.Call.Args) == 2 && same(x.Call.Args[0]) {
+				if k, ok := x.Call.Args[1].(*ssa.Const); ok && k.Value != nil && k.Value.Kind() == constant.String {
+					if n := int64(len(constant.StringVal(k.Value))); n > best {
+						best = n
+					}
+				}
+			}
+			if truth && strings.HasSuffix(name, "regexp.Regexp).MatchString") && len(x.Call.Args) == 2 && same(x.Call.Args[1]) {
+				if best < 1 {
+					best = 1 // a match of the patterns used here consumes at least one character
+				}
+			}
+		}
+	}
+	return best
+}
+
+// sameFieldLoad: two loads of the same field of the same base (no intervening check of stores: used for guards only).
+func sameFieldLoad(a, b ssa.Value) bool {
+	la, ok1 := a.(*ssa.UnOp)
+	lb, ok2 := b.(*ssa.UnOp)
+	if !ok1 || !ok2 || la.Op != token.MUL || lb.Op != token.MUL {
+		return false
+	}
+	fa, ok1 := la.X.(*ssa.FieldAddr)
+	fb, ok2 := lb.X.(*ssa.FieldAddr)
+	if ok1 && ok2 {
+		return fa.X == fb.X && fa.Field == fb.Field
+	}
+	ia, ok1 := la.X.(*ssa.IndexAddr)
+	ib, ok2 := lb.X.(*ssa.IndexAddr)
+	if ok1 && ok2 && ia.X == ib.X {
+		ka, okA := ia.Index.(*ssa.Const)
+		kb, okB := ib.Index.(*ssa.Const)
+		return ia.Index == ib.Index || okA && okB && ka.Value != nil && kb.Value != nil && ka.Int64() == kb.Int64()
+	}
+	return la.X == lb.X
+}
+
+func ruleConstSlice(c *Ctx, r *Rep) {
+	for _, fn := range c.Funcs {
+		n := 0
+		for _, b := range fn.Blocks {
+			for _, ins := range b.Instrs {
+				sl, ok := ins.(*ssa.Slice)
+				if !ok {
+					continue
+				}
+				switch sl.X.Type().Underlying().(type) {
+				case *types.Slice, *types.Basic:
+				default:
+					continue // arrays: the compiler checks constants
+				}
+				need := int64(0)
+				for _, bound := range []ssa.Value{sl.Low, sl.High} {
+					if k, ok := bound.(*ssa.Const); ok && bound != nil && k.Value != nil && k.Int64() > need {
+						need = k.Int64()
+					}
+				}
+				if need == 0 {
+					continue
+				}
+				if _, known := constLen(sl.X); known {
+					continue // LINT-CONSTIDX
+				}
+				n++
+				have := lenLowerBound(c, sl.X, b)
+				r.Check(have >= need, sprintf("cut|%s#%d", c.FuncKey(fn), n), c.Pos(sl.Pos()), sprintf("a test on the way that establishes a length of at least %d", need), sprintf("established: at least %d", have))
+			}
+		}
+	}
+}
+
+// ---------------------------------------------------------------------------
+
+func init() {
+	register(&Rule{Name: "IMPORT-PARTS", Floor: 3, Run: ruleImportParts,
+		Doc: "what the PEM reader found is what the backend keeps: the certificate and the private key of the file are each stored into the like-named part of the artifact under no other condition than their own presence (a key is never dropped because something else is in the file), and the request is stored at least when no key is there"})
+}
+
+func ruleImportParts(c *Ctx, r *Rep) {
+	pv := c.newProv()
+	seen := map[string]bool{}
+	var host *ssa.Function
+	for _, fn := range c.Funcs {
+		for _, fs := range storesIntoType(c, fn, "db.BuildArtifact") {
+			if fs.whole || fs.field == "" || strings.Contains(fs.field, ".") {
+				continue
+			}
+			o := pv.Origins(fs.val())
+			fromPem := ""
+			for _, x := range o {
+				if i := strings.Index(x, "ReadPem("); i >= 0 && strings.Contains(x[i:], ")#0.") {
+					fromPem = x[strings.LastIndex(x, ")#0.")+4:]
+				}
+			}
+			if fromPem == "" {
+				continue
+			}
+			host = fn
+			key := fs.field
+			seen[key] = true
+			r.Check(fromPem == fs.field, "like-named|"+key, c.Pos(fs.st.Pos()), "artifact."+fs.field+" <- file."+fs.field, "file."+fromPem)
+			// the conditions the store is under
+			var foreign []string
+			for _, g := range guardsOf(fs.st.Block()) {
+				x, isNil, ok := nilTestOf(g.Cond, g.Truth)
+				if !ok {
+					continue
+				}
+				xo := pv.Origins(x)
+				part := ""
+				for _, y := range xo {
+					if j := strings.LastIndex(y, ")#0."); j >= 0 && strings.Contains(y, "ReadPem(") {
+						part = y[j+4:]
+					}
+				}
+				if part == "" {
+					continue
+				}
+				switch {
+				case part == fs.field && !isNil:
+					// its own presence
+				case fs.field == "Request" && part == "PrivateKey" && isNil:
+					// the request stands in when there is no key
+				default:
+					how := "is present"
+					if isNil {
+						how = "is absent"
+					}
+					foreign = append(foreign, "only when "+part+" "+how)
+				}
+			}
+			if fs.field != "Request" || len(foreign) > 0 {
+				r.Check(len(foreign) == 0, "kept-whenever-present|"+key, c.Pos(fs.st.Pos()), "stored whenever the file has it", strings.Join(foreign, "; "))
+			}
+		}
+	}
+	if host == nil {
+		r.Undecided("anchor:pem-import", "", "no function stores parts of a ReadPem result into a BuildArtifact")
+		return
+	}
+	for _, f := range []string{"Certificate", "PrivateKey", "Request"} {
+		if !seen[f] {
+			r.Bad("like-named|"+f, c.FnPos(host), "artifact."+f+" <- file."+f, "never stored")
 		}
 	}
 }
